@@ -922,12 +922,21 @@ func idOutcome(out *oidc.IDTokenClaims, err error) string {
 	return tok.Outcome(nil, "", err)
 }
 
+// shardSize: thorough shards are kept small so that 16 coqc processes evaluating
+// them in parallel stay well below 1 GB each (0 = emit's default for quick).
+func shardSize(cfg drv.Config) int {
+	if cfg.Quick {
+		return 0
+	}
+	return 300
+}
+
 func main() {
 	cfg := drv.Parse()
 	g := &gen{r: drv.NewRand(cfg.Seed)}
 	g.pool = tok.NewPool(g.r)
 	tok.SetWarm(g.pool)
-	g.w = emit.NewWriter(cfg.Out, "C02_spec", 0, cfg.Only)
+	g.w = emit.NewWriter(cfg.Out, "C02_spec", shardSize(cfg), cfg.Only)
 	n := cfg.Count(600, 15000)
 	kinds := []string{"rp", "at", "hint", "jwt", "ro"}
 	for i := 0; i < n; i++ {
